@@ -64,6 +64,7 @@ type Prog struct {
 	cg      *CallGraph
 	effects map[*Func]*Effects
 	defs    map[*Func]map[types.Object][]ast.Node
+	ifaceUsed map[*types.TypeName]bool
 }
 
 // Load type-checks ./... of dir. overlay maps absolute file names to
